@@ -167,6 +167,13 @@ impl<'a> Step<'a> {
     }
 }
 
+/// What a monitor needs to run its own fork executions from a non-transaction hook.
+pub struct Hook<'a> {
+    pub exec: &'a Executor,
+    pub clock: SimClock,
+    pub event_index: usize,
+}
+
 #[derive(Clone, Debug, Default)]
 pub struct Cov {
     pub evaluations: u64,
@@ -219,8 +226,8 @@ impl Cov {
 pub trait Monitor {
     fn property(&self) -> &'static str;
     fn on_tx(&mut self, s: &Step, out: &mut Vec<Violation>);
-    fn on_advance(&mut self, _pre: SimClock, _post: SimClock, _store: &Store) {}
-    fn on_set_account(&mut self, _key: &Pubkey, _pre: &Store, _post: &Store, _why: &'static str) {}
+    fn on_advance(&mut self, _pre: SimClock, _post: SimClock, _store: &Store, _hook: &Hook, _out: &mut Vec<Violation>) {}
+    fn on_set_account(&mut self, _key: &Pubkey, _pre: &Store, _post: &Store, _why: &'static str, _hook: &Hook, _out: &mut Vec<Violation>) {}
     /// end-of-run checks over the recorded history
     fn finish(&mut self, _store: &Store, _clock: SimClock, _out: &mut Vec<Violation>) {}
     fn cov(&self) -> &Cov;
@@ -322,9 +329,16 @@ impl Sim {
                 self.clock.epoch += *depoch;
                 self.stats.sim_seconds += *dt;
                 let post = self.clock;
+                let hook = Hook {
+                    exec: &self.exec,
+                    clock: self.clock,
+                    event_index: idx,
+                };
+                let mut v = Vec::new();
                 for m in self.monitors.iter_mut() {
-                    m.on_advance(pre, post, &self.store);
+                    m.on_advance(pre, post, &self.store, &hook, &mut v);
                 }
+                self.violations.extend(v);
                 None
             }
             Event::SetAccount { key, account, why } => {
@@ -338,9 +352,16 @@ impl Sim {
                     }
                 }
                 let post = &self.store;
+                let hook = Hook {
+                    exec: &self.exec,
+                    clock: self.clock,
+                    event_index: idx,
+                };
+                let mut v = Vec::new();
                 for m in self.monitors.iter_mut() {
-                    m.on_set_account(key, &pre, post, why);
+                    m.on_set_account(key, &pre, post, why, &hook, &mut v);
                 }
+                self.violations.extend(v);
                 None
             }
             Event::Tx(tx) => {
